@@ -111,13 +111,9 @@ def trade_obligations(ctx, rec, cfgv):
         ev, eq = wsum(cyc['entries'])
         xv, xq = wsum(cyc['exits'])
         ctx.prove(ctx.equal(t.qty, eq), 'C06:trade-qty-is-sum-of-entry-fills', tag)
-        # weighted prices: compare cross-multiplied (no division by a symbolic sum)
-        bo = t.buy_orders[:] if t.type == 'long' else t.sell_orders[:]
-        so = t.sell_orders[:] if t.type == 'long' else t.buy_orders[:]
-        tev, teq = wsum([(r[0], r[1]) for r in bo])
-        txv, txq = wsum([(r[0], r[1]) for r in so])
-        ctx.prove(ctx.equal(tev * eq, ev * teq), 'C06:trade-entry-price-is-qty-weighted', tag)
-        ctx.prove(ctx.equal(txv * xq, xv * txq), 'C06:trade-exit-price-is-qty-weighted-over-effective-fills', tag)
+        # the trade's own entry_price / exit_price against the quantity-weighted mean of the effective fills (cross-multiplied)
+        ctx.prove(ctx.equal(t.entry_price * eq, ev), 'C06:trade-entry-price-is-qty-weighted', tag)
+        ctx.prove(ctx.equal(t.exit_price * xq, xv), 'C06:trade-exit-price-is-qty-weighted-over-effective-fills', tag)
         ctx.prove(t.opened_at == cyc['opened_at'] and t.closed_at == cyc['closed_at'], 'C06:trade-open-close-times', tag)
         ctx.prove(len(t.orders) == len(cyc['orders']) and all(a is b for a, b in zip(t.orders, cyc['orders'])),
                   'C06:trade-order-list', tag)
@@ -150,6 +146,13 @@ def _template(ctx, kind, side):
         t2 = ctx.real('t2', 50, 200)
         ctx.constrain(And(sl < 99.9, t1 > 100.1, t2 > 100.1) if long else And(sl > 100.1, t1 < 99.9, t2 < 99.9))
         return S.make_template(side=side, entry=None, stop=[(2.0, sl)], take=[(1.0, t1), (1.0, t2)], qty=2.0, name='T3',
+                               reduced_stop=lambda s: [(abs(s.position.qty), sl)])
+    if kind == 'T3u':  # take-profit ladder with UNEQUAL sizes
+        sl = ctx.real('sl', 50, 200)
+        t1 = ctx.real('t1', 50, 200)
+        t2 = ctx.real('t2', 50, 200)
+        ctx.constrain(And(sl < 99.9, t1 > 100.1, t2 > 100.1) if long else And(sl > 100.1, t1 < 99.9, t2 < 99.9))
+        return S.make_template(side=side, entry=None, stop=[(3.0, sl)], take=[(1.0, t1), (2.0, t2)], qty=3.0, name='T3u',
                                reduced_stop=lambda s: [(abs(s.position.qty), sl)])
     if kind == 'T3o':  # partial take-profit, stop NOT resized: oversize reduce-only stop after the reduction
         sl = ctx.real('sl', 50, 200)
@@ -197,9 +200,11 @@ def _jobs(tier):
         add(n=3, kind='T0', side='short')
         add(n=3, kind='T8f', side='long')
         add(n=3, kind='T2', side='short', sym_from=2)
+        add(n=3, kind='T3u', side='short', sym_from=2)
+        add(n=3, kind='T3u', side='long', sym_from=2)
     else:
         for side in ('long', 'short'):
-            for kind in ('T1', 'T2', 'T3', 'T3o', 'T5', 'T0', 'T8f'):
+            for kind in ('T1', 'T2', 'T3', 'T3u', 'T3o', 'T5', 'T0', 'T8f'):
                 add(n=3, kind=kind, side=side)
         add(n=4, kind='T1', side='long', leverage=10)
         add(n=4, kind='T3', side='long', leverage=5)
